@@ -10,9 +10,8 @@ OFF = 63  # input slot holding a value offset (gives non-try programs more than 
 
 
 def slot(b, k):
-    # wide programs (more than 15 branches) wrap around: the reference is rendered from the same Program, so a shared fault slot
-    # simply makes several positions fail together in both
-    return (b * MAXD + k) % 60  # 61 is vrt's PANIC_SLOT, 63 the offset slot
+    v = b * MAXD + k
+    return v if v < 60 else v + 4  # 60..63 are reserved (61 is vrt's PANIC_SLOT, 63 the offset slot); the input table has 512 slots
 
 
 def payload(b, k):
